@@ -1,5 +1,7 @@
 import TracklibVerif.Lemmas.Proj
 import TracklibVerif.Lemmas.ProjExt
+import TracklibVerif.Lemmas.ProjTrack
+import TracklibVerif.Lemmas.ProjNear
 import Mathlib.Analysis.Real.Sqrt
 /-! # C20 — projecting a point on a polyline returns its nearest point
 
@@ -17,14 +19,23 @@ and the counter-examples, which are evaluated on the model. For every non-vertic
 is proved at the strength of the property: `proj_segment_nearest_partial` (one segment: point on it, distance
 to it, minimal), `proj_segment_horizontal` (closed form for horizontal segments), `proj_polyline_vertices` and
 `proj_polyline_nearest_partial` (polyline: index of the carrying segment, point on it, distance to it, minimal
-over every point of every segment, the skipped zero-length segments included). IEEE rounding is outside these
+over every point of every segment, the skipped zero-length segments included), `proj_polyline_skipped_partial` (a skipped
+segment of non-zero length `< 1e-16` touching a kept one is covered up to `1e-16`). IEEE rounding is outside these
 statements (the horizontal-segment defect D17 and its near-vertical counterpart exist only in floating point).
 
 Front ends (second half of the file): the argument forms of `proj_segment` / `proj_polyligne` (lists vs numpy
 arrays, two sequences of unequal lengths), `Track.getX()/getY()` on 3D positions, `__projOnTrack` and both
 branches of `mapOnTrack` are in the model; `projOnTrack3_planimetric` says that the projection is planimetric
 (no altitude is read, the returned point has third coordinate 0), so that every theorem about `projPolyligne`
-applies to `mapOnTrack` on 3D data through `mapOnTrack3_coord` / `mapOnTrack3_track`. -/
+applies to `mapOnTrack` on 3D data through `mapOnTrack3_coord` / `mapOnTrack3_track`.
+
+Track objects (last part of the file, model `Model/ProjTrack.lean`): the Track branch of `mapOnTrack` on tracks that carry
+STATE — a table of analytical features (possibly with features called `dist` / `edge`: the output of an earlier
+`mapOnTrack`), time stamps. `mapOnTrackT_rows`: the output is a fresh track with exactly the features `dist`, `edge`,
+whose columns are the distance and the segment index of THIS projection of every query, whatever the track of queries
+carried (`mapOnTrackT_ignores_state`); `mapChain_calls`: in chained snapping every call is such a projection of the
+positions of the previous output; `mapOnTrackT_nearest_partial`: the property at full strength through the track
+form; `mapOnTrackT_empty`: a track of queries without observation raises. -/
 namespace TV.C20
 open TV.Proj
 variable {α : Type} [Field α] [LinearOrder α] [IsStrictOrderedRing α]
@@ -427,6 +438,45 @@ theorem proj_polyline_nearest_partial {sqrt : α → α} (hs : SqrtSpec sqrt) (e
     rw [ex, ey]
     exact proj_polyline_vertices hs eps pts x y d px py i h hz j q1 t1
 
+/-- `proj_polyline_skipped_partial`: the error made by skipping a segment of NON-zero length `< eps` (`1e-16`) is at most
+`eps`. If `proj_polyligne` returns `(d, …)` and segment `j` is skipped by the `abs(dx) + abs(dy) < eps` test while one of
+its two ends is also an end of a segment that is kept (the usual case: an isolated tiny segment between two ordinary
+ones), then for every point `(qx, qy)` of the skipped segment `d ≤ |query - (qx, qy)| + eps` (the distance written with
+the `sqrt` parameter). Together with `proj_polyline_min_partial` (kept segments): on a polyline without kept vertical
+segment whose skipped segments each touch a kept one, the returned distance exceeds the true minimum by less than `eps`.
+Missing: a run of several consecutive skipped segments (the bound is then the length of the run up to the nearest kept
+end; not stated). Exact arithmetic. -/
+theorem proj_polyline_skipped_partial {sqrt : α → α} (hs : SqrtSpec sqrt) (eps : α) (pts : List (α × α))
+    (x y d px py : α) (i : Nat) (h : projPolyligne sqrt eps pts x y = .ok (d, px, py, i))
+    (j : Nat) (p1 p2 : α × α) (h1 : pts[j]? = some p1) (h2 : pts[j + 1]? = some p2)
+    (hsk : skipped eps p1.1 p1.2 p2.1 p2.2 = true)
+    (hadj : ∃ k q1 q2, pts[k]? = some q1 ∧ pts[k + 1]? = some q2 ∧ skipped eps q1.1 q1.2 q2.1 q2.2 = false ∧
+      (q1 = p1 ∨ q2 = p1 ∨ q1 = p2 ∨ q2 = p2)) :
+    ∀ qx qy, OnSeg p1.1 p1.2 p2.1 p2.2 qx qy → d ≤ sqrt (d2 x y qx qy) + eps := by
+  obtain ⟨_, d0, _, hall⟩ := proj_polyline_min_partial hs eps pts x y d px py i h
+  obtain ⟨k, q1, q2, k1, k2, hk, hends⟩ := hadj
+  obtain ⟨⟨b1, b2⟩, _⟩ := hall k q1 q2 k1 k2 hk
+  have hlt : fabs (p1.1 - p2.1) + fabs (p1.2 - p2.2) < eps := by
+    simpa [skipped] using hsk
+  intro qx qy hq
+  obtain ⟨n1, n2⟩ := onSeg_near_ends _ _ _ _ _ _ hq
+  obtain ⟨e0, ee⟩ := hs _ (d2_nonneg x y qx qy)
+  have hend : d * d ≤ d2 x y p1.1 p1.2 ∨ d * d ≤ d2 x y p2.1 p2.2 := by
+    rcases hends with e | e | e | e
+    · left; rw [← e]; exact b1
+    · left; rw [← e]; exact b2
+    · right; rw [← e]; exact b1
+    · right; rw [← e]; exact b2
+  rcases hend with hv | hv
+  · exact near_vertex_bound x y p1.1 p1.2 qx qy d _ eps d0 e0 hv ee (le_of_lt (lt_of_le_of_lt n1 hlt))
+  · exact near_vertex_bound x y p2.1 p2.2 qx qy d _ eps d0 e0 hv ee (le_of_lt (lt_of_le_of_lt n2 hlt))
+
+/-- non-vacuity of `proj_polyline_skipped_partial`: polyline `(-4,3),(4,3),(4,7/2)` with `eps = 1` skips the segment
+`(4,3)-(4,7/2)` of length `1/2`, whose first end is the end of the kept horizontal segment; query `(0,0)` → segment 0 at
+distance 3 (every point of the skipped segment is farther than 3 anyway: the bound `d ≤ |q - p| + eps` holds with room) -/
+example : (projPolyligne sqTable 1 [(-4, 3), (4, 3), (4, 7 / 2)] 0 0).toOption = some (3, 0, 3, 0)
+    ∧ skipped (1 : Rat) 4 3 4 (7 / 2) = true ∧ skipped (1 : Rat) (-4) 3 4 3 = false := by decide +kernel
+
 /-! ## Argument forms and front ends -/
 
 /-- `projSegmentG_lists`: with a `list` / `tuple` of Python numbers the parametrised model of `proj_segment` is the
@@ -566,6 +616,188 @@ theorem mapOnTrack3_track (sqrt : α → α) (eps : α) (pts : List (α × α ×
     rw [hp] at h
     injection h with h
     exact ⟨rows, h.symm, key qs rows hp⟩
+
+/-! ## The Track branch of `mapOnTrack` on track objects with state (`Model/ProjTrack.lean`) -/
+open TV.ProjTrack TV.Features
+
+/-- `mapOnTrackT_rows`: `mapOnTrack(track_of_queries, track)` on two track OBJECTS (feature tables, time stamps). When it
+returns, the output track has **exactly the features `dist`, `edge`** (in that order), default time stamps, and there
+are rows `(point, d, i)`, one per observation of the track of queries, in order, such that: the positions of the output
+are the points, `output["dist"]` is the column of the `d`, `output["edge"]` the column of the `i`, and row `j` is
+`(ENUCoords(px, py, 0), d, i)` with `(d, px, py, i) = proj_polyligne` of query `j` on the planimetric vertices of the
+reference track. Nothing in the statement depends on the features / time stamps the two input tracks carry: a feature
+called `dist` or `edge` on the track of queries (the output of an earlier `mapOnTrack`) is NOT what the output holds. -/
+theorem mapOnTrackT_rows (sqrt : α → α) (eps : α) (ofNat : Nat → α) (ref q out : St α)
+    (h : mapOnTrackT sqrt eps ofNat ref q = .ok out) :
+    out.dico.map Prod.fst = ["dist", "edge"] ∧
+    ∃ rows : List ((α × α × α) × α × Nat),
+      rows.length = (positions q).length ∧ rows ≠ [] ∧
+      positions out = rows.map (fun r => r.1) ∧
+      column out "dist" = some (rows.map (fun r => r.2.1)) ∧
+      column out "edge" = some (rows.map (fun r => ofNat r.2.2)) ∧
+      out.ts = rows.map (fun _ => (0 : α)) ∧
+      ∀ (j : Nat) (qj : α × α × α), (positions q)[j]? = some qj → ∃ px py d i, rows[j]? = some ((px, py, 0), d, i) ∧
+        projPolyligne sqrt eps (xy (positions ref)) qj.1 qj.2.1 = .ok (d, px, py, i) := by
+  rw [mapOnTrackT_eq] at h
+  cases hall : mapOnTrack3All sqrt eps (positions ref) (positions q) with
+  | error e => rw [hall] at h; cases h
+  | ok rows =>
+    rw [hall] at h
+    cases rows with
+    | nil => cases h
+    | cons r rs =>
+      simp only at h
+      injection h with h
+      subst h
+      have h3 : mapOnTrack3 sqrt eps (positions ref) (.inr (positions q)) = .ok (.inr (r :: rs)) := by
+        simp [mapOnTrack3, hall, Except.map]
+      obtain ⟨rows', e', l', f'⟩ := mapOnTrack3_track sqrt eps (positions ref) (positions q) _ h3
+      injection e' with e'
+      subst e'
+      exact ⟨rfl, r :: rs, l', by simp, positions_outputOf ofNat _, column_dist ofNat _, column_edge ofNat _, rfl, f'⟩
+
+/-- `mapOnTrackT_ignores_state`: the result of `mapOnTrack(track_of_queries, track)` depends on the POSITIONS of the two
+tracks only: two tracks of queries (two reference tracks) with the same positions and any analytical features, any
+time stamps, give the same output track — or the same exception. -/
+theorem mapOnTrackT_ignores_state (sqrt : α → α) (eps : α) (ofNat : Nat → α) (ref ref' q q' : St α)
+    (hr : positions ref = positions ref') (hq : positions q = positions q') :
+    mapOnTrackT sqrt eps ofNat ref q = mapOnTrackT sqrt eps ofNat ref' q' := by
+  unfold mapOnTrackT
+  rw [hr, hq]
+
+/-- `mapOnTrackT_empty`: a track of queries without observation: `createAnalyticalFeature("dist", [])` on the empty
+output raises `AnalyticalFeatureError` ("there is no observation in track"), whatever the reference track. -/
+theorem mapOnTrackT_empty (sqrt : α → α) (eps : α) (ofNat : Nat → α) (ref q : St α) (hq : positions q = []) :
+    mapOnTrackT sqrt eps ofNat ref q = .error (.feat .empty) := by
+  rw [mapOnTrackT_eq, hq]
+  simp [mapOnTrack3All]
+
+/-- `mapChain_calls`: chained snapping `mapOnTrack(… mapOnTrack(mapOnTrack(q, ref₀), ref₁) …)` that runs to its end: one
+output per reference track, and output `k` is `mapOnTrack(track of queries of call k, refₖ)` where the track of queries of
+call `0` is `q` and that of call `k + 1` is output `k` — so that by `mapOnTrackT_rows` the `dist` / `edge` of output
+`k + 1` are those of the projection of the positions of output `k` on `refₖ₊₁`, not the `dist` / `edge` output `k` carries. -/
+theorem mapChain_calls (sqrt : α → α) (eps : α) (ofNat : Nat → α) (refs : List (St α)) (q : St α) (outs : List (St α))
+    (h : mapChain sqrt eps ofNat refs q = (outs, none)) :
+    outs.length = refs.length ∧
+    ∀ (k : Nat) (r : St α), refs[k]? = some r → ∃ o, outs[k]? = some o ∧
+      mapOnTrackT sqrt eps ofNat r ((q :: outs)[k]?.getD q) = .ok o := by
+  induction refs generalizing q outs with
+  | nil =>
+    simp only [mapChain, Prod.mk.injEq] at h
+    obtain ⟨rfl, _⟩ := h
+    exact ⟨rfl, fun k r hk => by simp at hk⟩
+  | cons r0 rs ih =>
+    rw [mapChain] at h
+    split at h
+    · simp at h
+    · rename_i o ho
+      simp only [Prod.mk.injEq] at h
+      obtain ⟨h1, h2⟩ := h
+      subst h1
+      obtain ⟨l, f⟩ := ih o (mapChain sqrt eps ofNat rs o).1 (by rw [← h2])
+      refine ⟨by simp [l], ?_⟩
+      intro k r hk
+      cases k with
+      | zero =>
+        simp only [List.getElem?_cons_zero, Option.some.injEq] at hk
+        subst hk
+        exact ⟨o, by simp, by simpa using ho⟩
+      | succ k =>
+        simp only [List.getElem?_cons_succ] at hk
+        obtain ⟨o', e1, e2⟩ := f k r hk
+        refine ⟨o', by simpa using e1, ?_⟩
+        cases k with
+        | zero => simpa using e2
+        | succ k =>
+          simp only [List.getElem?_cons_succ] at e2 ⊢
+          cases hk' : (mapChain sqrt eps ofNat rs o).1[k]? with
+          | none =>
+            obtain ⟨hlt, _⟩ := List.getElem?_eq_some_iff.mp e1
+            have := List.getElem?_eq_none_iff.mp hk'
+            omega
+          | some v => simpa [hk'] using e2
+
+/-- `mapOnTrackT_nearest_partial`: the property at full strength **through the track form**, on track objects with any
+state. Hypotheses on the reference polyline as in `proj_polyline_nearest_partial` (no kept vertical segment, skipped
+segments zero-length, one kept), and a track of queries with at least one observation. Then `mapOnTrack(track, track)`
+returns an output track, with rows `(point, d, i)` one per query in order such that the output's positions are the
+points, its `dist` feature the `d`, its `edge` feature the `i`, and for every query `j`: the point is
+`ENUCoords(px, py, 0)` lying on segment `i` of the reference polyline, `d` is the distance from the query to it, and `d` is
+at most the distance from the query to every point of every segment — whatever features (`dist` / `edge` included) and
+time stamps the track of queries and the reference track carry.
+Missing w.r.t. the property: as `proj_polyline_nearest_partial` (vertical segments: D16; exact arithmetic). -/
+theorem mapOnTrackT_nearest_partial {sqrt : α → α} (hs : SqrtSpec sqrt) (eps : α) (ofNat : Nat → α) (ref q : St α)
+    (hq : positions q ≠ [])
+    (hnv : ∀ j p1 p2, (xy (positions ref))[j]? = some p1 → (xy (positions ref))[j + 1]? = some p2 →
+      skipped eps p1.1 p1.2 p2.1 p2.2 = false → p1.1 ≠ p2.1)
+    (hz : ∀ j p1 p2, (xy (positions ref))[j]? = some p1 → (xy (positions ref))[j + 1]? = some p2 →
+      skipped eps p1.1 p1.2 p2.1 p2.2 = true → p1 = p2)
+    (hex : ∃ j p1 p2, (xy (positions ref))[j]? = some p1 ∧ (xy (positions ref))[j + 1]? = some p2 ∧
+      skipped eps p1.1 p1.2 p2.1 p2.2 = false) :
+    ∃ (out : St α) (rows : List ((α × α × α) × α × Nat)),
+      mapOnTrackT sqrt eps ofNat ref q = .ok out ∧ out.dico.map Prod.fst = ["dist", "edge"] ∧
+      rows.length = (positions q).length ∧ positions out = rows.map (fun r => r.1) ∧
+      column out "dist" = some (rows.map (fun r => r.2.1)) ∧ column out "edge" = some (rows.map (fun r => ofNat r.2.2)) ∧
+      ∀ (j : Nat) (qj : α × α × α), (positions q)[j]? = some qj → ∃ px py d i, rows[j]? = some ((px, py, 0), d, i) ∧
+        (∃ p1 p2, (xy (positions ref))[i]? = some p1 ∧ (xy (positions ref))[i + 1]? = some p2 ∧
+          OnSeg p1.1 p1.2 p2.1 p2.2 px py) ∧
+        0 ≤ d ∧ d * d = d2 qj.1 qj.2.1 px py ∧
+        ∀ j' p1 p2, (xy (positions ref))[j']? = some p1 → (xy (positions ref))[j' + 1]? = some p2 →
+          ∀ qx qy, OnSeg p1.1 p1.2 p2.1 p2.2 qx qy → d * d ≤ d2 qj.1 qj.2.1 qx qy := by
+  -- every query projects
+  have hone : ∀ qj : α × α × α, ∃ r, projOnTrack3 sqrt eps (positions ref) qj = .ok r := by
+    intro qj
+    obtain ⟨d, px, py, i, e, _⟩ := proj_polyline_nearest_partial hs eps (xy (positions ref)) qj.1 qj.2.1 hnv hz hex
+    exact ⟨_, (projOnTrack3_planimetric sqrt eps (positions ref) qj px py 0 d i).mpr ⟨rfl, e⟩⟩
+  have hall : ∀ qs : List (α × α × α), ∃ rows, mapOnTrack3All sqrt eps (positions ref) qs = .ok rows := by
+    intro qs
+    induction qs with
+    | nil => exact ⟨[], rfl⟩
+    | cons q0 qs ih =>
+      obtain ⟨r0, e0⟩ := hone q0
+      obtain ⟨rs, es⟩ := ih
+      exact ⟨r0 :: rs, by rw [mapOnTrack3All, e0]; simp only; rw [es]⟩
+  obtain ⟨rows0, e0⟩ := hall (positions q)
+  have hlen := mapOnTrack3All_length sqrt eps _ _ _ e0
+  have hout : ∃ out, mapOnTrackT sqrt eps ofNat ref q = .ok out := by
+    rw [mapOnTrackT_eq, e0]
+    cases rows0 with
+    | nil => exact absurd (List.length_eq_zero_iff.mp hlen.symm) hq
+    | cons r rs => exact ⟨_, rfl⟩
+  obtain ⟨out, eout⟩ := hout
+  obtain ⟨hd, rows, l, _, hp, hdist, hedge, _, f⟩ := mapOnTrackT_rows sqrt eps ofNat ref q out eout
+  refine ⟨out, rows, eout, hd, l, hp, hdist, hedge, ?_⟩
+  intro j qj hj
+  obtain ⟨px, py, d, i, er, ep⟩ := f j qj hj
+  obtain ⟨d', px', py', i', e', hon, d0, dd, hmin⟩ :=
+    proj_polyline_nearest_partial hs eps (xy (positions ref)) qj.1 qj.2.1 hnv hz hex
+  rw [ep] at e'
+  injection e' with e'
+  simp only [Prod.mk.injEq] at e'
+  obtain ⟨rfl, rfl, rfl, rfl⟩ := e'
+  exact ⟨px, py, d, i, er, hon, d0, dd, hmin⟩
+
+/-- a track of queries that was snapped before: one observation at `(3, 4, 5)` carrying `dist = 99`, `edge = 7` -/
+def snapped : St Rat :=
+  { dico := [("dist", 0), ("edge", 1)], rows := [[99, 7]], xs := [3], ys := [4], zs := [5], ts := [1000] }
+/-- a reference track `(0,0,35)-(8,0,40)` carrying a feature of its own -/
+def refTrack : St Rat :=
+  { dico := [("abs_curv", 0)], rows := [[0], [8]], xs := [0, 8], ys := [0, 0], zs := [35, 40], ts := [0, 1] }
+
+/-- evaluated on the model: snapping `snapped` on `refTrack` gives `dist = [4]`, `edge = [0]` (NOT the `99`, `7` it
+carried), the features `dist`, `edge` only, the point `(3, 0, 0)`, the default time stamp -/
+example : (match mapOnTrackT sqTable 1 (fun n => (n : Rat)) refTrack snapped with
+    | .ok o => column o "dist" == some [4] && column o "edge" == some [0] && o.dico.map Prod.fst == ["dist", "edge"]
+        && positions o == [(3, 0, 0)] && o.ts == [0]
+    | .error _ => false) = true := by decide +kernel
+/-- evaluated on the model: two-step snapping, first on `(0,0)-(8,0)` then on `(0,-3)-(8,-3)`: the second output holds
+the distance 3 from the first output `(3,0)` to the second line -/
+example : (match mapChain sqTable 1 (fun n => (n : Rat)) [refTrack, { refTrack with ys := [-3, -3] }] snapped with
+    | ([o1, o2], none) => column o1 "dist" == some [4] && column o2 "dist" == some [3] && positions o2 == [(3, -3, 0)]
+    | _ => false) = true := by decide +kernel
+/-- evaluated on the model: a track of queries without observation raises `AnalyticalFeatureError` -/
+example : (match mapOnTrackT sqTable 1 (fun n => (n : Rat)) refTrack { snapped with rows := [], xs := [], ys := [], zs := [], ts := [] } with
+    | .error (.feat .empty) => true | _ => false) = true := by decide +kernel
 
 /-- non-vacuity of `proj_polyline_nearest_partial` (horizontal, zero-length, then oblique south-west-bound; `eps = 1`
 skips exactly the zero-length segments on the integer lattice): query `(0,0)` → segment 2 (the index counts the
